@@ -180,6 +180,14 @@ func (op _OpcodeType) decodeI(x uint32) (as abi.As, arg *abi.AsArgument, argRaw 
 	for i, ctx := range _AOpContextTable {
 		if ctx.Opcode == op {
 			if ctx.Funct3 == funct3 {
+				if ctx.HasShamt {
+					// SLLI/SRLI/SRAI: funct6 (imm[11:6]) 区分逻辑/算术移位
+					if ctx.Funct7>>1 != (x>>26)&0b_11_1111 {
+						continue
+					}
+					arg.Imm &= 0b_11_1111
+					argRaw.Imm = arg.Imm
+				}
 				as = abi.As(i)
 				break
 			}
